@@ -1,6 +1,7 @@
 import I18n.Model.Charset
 import I18n.Generated.IconvDl
 import I18n.Generated.EncodingsFn
+import I18n.Generated.LingFn
 import I18n.Model.CharsetCns
 import I18n.Spec.CharsetIconv
 import I18n.Driver.Util
@@ -198,6 +199,15 @@ def handle (op : String) (args : List String) : String :=
     match getUnrepresentable (oracle characters (encOf (j.toList.headD 'c')) (per.toList.map encOf)) characters with
     | .error () => "crash"
     | .ok r => s!"ok {showChars r}"
+  -- `gunrep`: the same through `Language.get_unrepresentable_characters` REGENERATED from lib/ling.py (Generated.LingFn,
+  -- tools/translate/ling2lean.py); the language lists exactly `<characters>`
+  | "gunrep", [j, per, cs] =>
+    let characters := charsOf cs
+    match I18n.Generated.LingFn.get_unrepresentable_characters (fun _ _ _ => some characters)
+        (oracle characters (encOf (j.toList.headD 'c')) (per.toList.map encOf)) ⟨[120, 120], none, none⟩ false with
+    | .error _ => "crash"
+    | .ok none => "none"
+    | .ok (some r) => s!"ok {showChars r}"
   | "check", [n, tmpl, d, codec, cs, orc] =>
     let characters : Option (Option (List (List Nat))) :=
       if cs == "~" then none else if cs == "^" then some none else some (some (charsOf cs))
